@@ -34,6 +34,73 @@ CLAIMED = {
         "design_ref": "DESIGN.md section 3, C15",
         "technique": "TLA+ model checking (TLC) + crash-point enumeration on real processes + trace validation + schedule replay",
     },
+    'C01': {       'design_ref': 'DESIGN.md section 3, C01 and Appendix A',
+        'note': "Trusts TLC, CPython's parser as judge of Python syntax, the concretisation/tokenisation tables. Error positions (C11) and "
+                'the polynomial-time clause are not checked; <% %> text compared modulo white space; tag heads and control bodies are '
+                'atoms.',
+        'spec': 'MakoLexer.tla, MC_MakoLexer.tla, Trace_MakoLexer.tla',
+        'technique': 'TLA+ model checking (TLC) + spec-to-code replay + trace validation',
+        'text': 'TLC checks Accounting (spans tile the source, images are the documented images, node positions), Progress, Iterations, '
+                'ErrOrTree on a symbol-level reference lexer (one action per matcher of Lexer.parse, Python-lexical ExprScan) for every '
+                'string of <=4 symbols over 16 directive symbols (thorough: 5; 6-7 on a hot sub-alphabet; ${ + <=5 expression symbols) and '
+                'prints every acceptable outcome; each string is concretised (filler, non-ASCII, LF/CRLF from the seed), run through the '
+                'real Lexer.parse and Template.render_unicode and compared on the normal form; long generated documents recorded from the '
+                'real code are re-lexed by Trace_MakoLexer. Bounded, not a proof. The polynomial-time clause is not claimed.'},
+    'C02': {       'design_ref': 'DESIGN.md section 3, C02',
+        'note': 'Trusts TLC, markupsafe.escape / urllib / html.entities as the documented functions, the logging interposers. D/P/BF names '
+                'are module-level only.',
+        'spec': 'Filters.tla, MC_Filters.tla, Trace_Filters.tla, MC_ExprScan.tla (ExprScan in MakoLexer.tla)',
+        'technique': 'TLA+ model checking (TLC) + spec-to-code replay + trace validation',
+        'text': 'TLC checks PipelineOrder, NameTable, Monotone on all D x P x E x BF x construct configurations of a model of '
+                'create_filter_callable and ScanSplit on grammar-generated bracket/quote/comment nestings; expected application sequences '
+                'and splits are printed, every configuration/case is rendered by the real Mako with tagging callables and non-commuting '
+                "builtin inputs and compared with reference implementations applied in TLC's order; application sequences observed through "
+                'logging callables on random configurations are validated by Trace_Filters. Bounded, not a proof.'},
+    'C04': {       'design_ref': 'DESIGN.md section 3, C04',
+        'note': 'Trusts TLC and the projection helper passed through the context. Loop targets around by-name calls and reserved '
+                'def/include arguments are not generated (property silent).',
+        'spec': 'Scopes.tla, ScopesCtx.tla, Trace_Scopes.tla',
+        'technique': 'TLA+ model checking (TLC) + spec-to-code replay + trace validation',
+        'text': 'TLC walks the name-resolution chain of the generated code (closure, module, _import_ns, context with __M_locals, '
+                'builtins, UNDEFINED/NameError), one action per hop, for every set of <=3 (thorough 4) of 10 binding sites x 12 read sites '
+                'x strict_undefined. It checks ResolveTotalAndOrdered against the priority table, HopsAscending and StrictOnlyWhenMissing. '
+                'ScopesCtx.tla models the context as a heap of dictionaries and checks ContextImmutable, KwargsExact, NoAliasHandedOut, '
+                'KwObsExact, and ReservedRejected over 4 entry points x enable_loop x 10 assignment kinds. Every enumerated case and '
+                'behaviour is rendered as a real template and compared. Seeded multi-variable templates are validated against '
+                'Trace_Scopes.tla.'},
+    'C06': {       'design_ref': 'DESIGN.md section 3, C06',
+        'note': 'Trusts TLC, the op->template concretiser and the token guard (any exception in a guarded member call = ERR); action '
+                'coverage taken from the N<=2 instance.',
+        'spec': 'Inherit.tla, MC_Inherit.tla, MC_InheritCompile.tla, Trace_Inherit.tla',
+        'technique': 'TLA+ model checking (TLC) + spec-to-code replay + trace validation',
+        'text': 'TLC enumerates every inheritance configuration of four families (dispatch/blocks/args/dynamic inherit) up to chains of 4 '
+                '(thorough 5), links the namespaces step by step as mako.runtime does, interprets the body/def/block scripts and checks '
+                'SelfMostDerived, NextParentAdjacent, LocalIsOwn, BaseBodyRuns, BlockOnce, AnonInPlace, BodyArgs, MemoSound; every '
+                "configuration is rendered as real templates (put_string and file-backed) and compared token by token with TLC's expected "
+                'output; all template shapes of the duplicate/misplaced named-block clause are compiled and compared; seeded random longer '
+                'chains are judged by Trace_Inherit.tla. Bounded, not a proof.'},
+    'C07': {       'design_ref': 'DESIGN.md section 3, C07',
+        'note': 'Trusts TLC and the concretiser; dot segments are exercised on file-backed lookups only; exception subclasses of '
+                'TemplateLookupException are not distinguished.',
+        'spec': 'UriPath.tla, Namespaces.tla, MC_Namespaces.tla, Trace_Namespaces.tla',
+        'technique': 'TLA+ model checking (TLC) + spec-to-code replay + trace validation',
+        'text': 'TLC enumerates layouts x writer directory x URI spelling x tag kind (incl. memo pairs and two-hop includes), namespace '
+                'precedence patterns, inheritable namespaces and include position/target/argument patterns, checking RelativeToWriter, '
+                'AbsoluteToRoot, UnresolvableRaisesLookup, MemoConsistent, InlineDefsWin, ImportsBeforeContext, InheritableReachable, '
+                'IncludeIndependent, IncludeArgsFirst; every scenario is built on real directory trees (one/two roots) and put_string '
+                'lookups and compared; random lookup sessions (bounded collections included) are judged by Trace_Namespaces.tla. Bounded, '
+                'not a proof.'},
+    'C19': {       'design_ref': 'DESIGN.md section 3, C19',
+        'note': 'CPython is the judge of sameness. Off-spine operands are fixed leaves. Class bodies, match and async are outside the '
+                'grammar. Known findings by signature.',
+        'spec': 'PyExpr.tla, PyScope.tla, Remargin.tla',
+        'technique': 'TLA+ model checking (TLC) + spec-to-code replay with CPython as judge',
+        'text': 'TLC enumerates every parent/position/child chain of 95 expression forms to 2 wraps (deeper by simulation) with a fully '
+                'parenthesised reference and a precedence-table spelling. It computes free/bound name sets of ~2.5k statement blocks '
+                '(WalkIsDefinition), and the true lexical state of every <% %> block of <=3 (4) line kinds (TableConsistent, Shape). '
+                'CPython (ast, symtable, exec) judges both the specifications and Mako: expressions re-emitted by '
+                'FunctionDecl/ArgumentList and read back from Template.code, declared/undeclared identifiers and strict_undefined renders, '
+                'and adjust_whitespace plus full renders at 15 margins compared with native exec.'},
 }
 
 NOT_BUILT_REASON = "check not built yet (build in progress)"
